@@ -97,6 +97,8 @@ func main() {
 			res.Fatal = append(res.Fatal, lerr.Error())
 		} else {
 			res.Notes = append(res.Notes, normNotes...)
+			res.Normalised = main.Normalised
+			res.Expanded = main.ExpandedList
 			res.Pkgs = len(main.Roots)
 			res.Funcs = len(main.funcList)
 			if len(main.Roots) < 70 {
